@@ -296,6 +296,200 @@ Qed.
 
 End WithCrypto.
 
+(* ---- histories over one key file path -------------------------------------------------------------- *)
+Section Histories.
+Variable c : crypto.
+
+(* the file opens with EXACTLY the passphrases of P, and then to the key s (export returns bytes that
+   unmarshal to that key: the 64 key bytes, or the 96-byte form an import was given) *)
+Definition opens_exactly (f : file c) (P : bytes -> Prop) (s : signer) : Prop :=
+  wf_signer s /\
+  forall p,
+    (P p -> load c f p = Ok s /\ exists pt, export c f p = Ok pt /\ unmarshal_priv pt = Some (s_priv s)) /\
+    (~ P p -> (exists e, load c f p = Err e) /\ (exists e, export c f p = Err e)).
+
+(* ghost state of a history: the file, which passphrases are meant to open it, the key it holds *)
+Record sealst := mk_seal { sl_file : file c; sl_pred : bytes -> Prop; sl_key : signer }.
+
+Definition seal_ok (st : sealst) : Prop := opens_exactly (sl_file st) (sl_pred st) (sl_key st).
+
+(* only a successful import and a create on a free path re-seal (under the passphrase THEY are given) *)
+Definition seal_step (st : sealst) (op : hop) : sealst :=
+  let f' := fst (hstep c (sl_file st) op) in
+  match op with
+  | HImport k p _ _ =>
+      match unmarshal_priv k with
+      | Some k' => mk_seal f' (eq p) (noop_signer k')
+      | None => mk_seal f' (sl_pred st) (sl_key st)
+      end
+  | HCreate sg p _ _ =>
+      match sl_file st with
+      | FAbsent => mk_seal f' (eq p) sg
+      | _ => mk_seal f' (sl_pred st) (sl_key st)
+      end
+  | _ => mk_seal f' (sl_pred st) (sl_key st)
+  end.
+
+Fixpoint seal_trace (st : sealst) (ops : list hop) : list sealst :=
+  match ops with
+  | [] => []
+  | op :: r => seal_step st op :: seal_trace (seal_step st op) r
+  end.
+
+(* what the code guarantees of its own random draws and key generation *)
+Definition hop_wf (op : hop) : Prop :=
+  match op with
+  | HImport _ _ salt nonce => salt <> [] /\ length nonce = 12
+  | HCreate sg _ salt nonce => wf_signer sg /\ salt <> [] /\ length nonce = 12
+  | _ => True
+  end.
+
+Definition hop_reads (op : hop) : Prop :=
+  match op with HLoad _ | HExport _ => True | _ => False end.
+
+(* loads and exports — any number, any passphrases, right or wrong — leave the file as it is *)
+Theorem readonly_history_keeps_file : forall ops (f : file c), Forall hop_reads ops ->
+  Forall (fun fr => fst fr = f) (hrun c f ops) /\ hfile c f ops = f.
+Proof.
+  induction ops as [|op r IH]; intros f H; cbn [hrun hfile fold_left]; [split; [constructor|reflexivity]|].
+  inversion H as [|? ? Hop Hr]; subst.
+  assert (E : fst (hstep c f op) = f) by (destruct op; cbn [hop_reads] in Hop; try contradiction; reflexivity).
+  rewrite E. destruct (IH f Hr) as [A B]. split; [constructor; [exact E|exact A]|exact B].
+Qed.
+
+Corollary readonly_history_same_answers : forall ops (f : file c) p, Forall hop_reads ops ->
+  load c (hfile c f ops) p = load c f p /\ export c (hfile c f ops) p = export c f p.
+Proof. intros ops f p H. destruct (readonly_history_keeps_file ops f H) as [_ E]. rewrite E. split; reflexivity. Qed.
+
+(* an operation that reports an error has not touched the file *)
+Theorem failed_step_keeps_file : forall (f : file c) op e,
+  snd (hstep c f op) = RDone (Err e) -> fst (hstep c f op) = f.
+Proof.
+  intros f op e. destruct op as [p|p|k p sa n|sg p sa n]; cbn [hstep]; try discriminate.
+  - destruct (import c k p sa n); cbn [fst snd]; try discriminate; reflexivity.
+  - destruct f; cbn [fst snd]; try discriminate; reflexivity.
+Qed.
+
+Hypothesis I : ideal c.
+
+Lemma sealed_file_opens_exactly : forall k k' pass salt nonce,
+  unmarshal_priv k = Some k' -> salt <> [] -> length nonce = 12 ->
+  opens_exactly (FData (mkKeydata c (seal c (argon c pass salt) nonce k) nonce (pub_of_priv k') salt))
+                (eq pass) (noop_signer k').
+Proof.
+  intros k k' pass salt nonce U Hs Hn.
+  pose proof (unmarshal_priv_len _ _ U) as L.
+  split; [split; [exact L|reflexivity]|].
+  intros p. split.
+  - intros <-. pose proof (decrypt_saved c I (mk_signer k (pub_of_priv k')) pass salt nonce Hs Hn) as D.
+    cbn [s_priv s_pub] in D. cbn [load export]. rewrite D, U. unfold unmarshal_pub. cbn [kd_pub].
+    rewrite (pub_of_priv_len _ L), Nat.eqb_refl, bytes_eqb_refl. split; [reflexivity|].
+    exists k. split; [reflexivity|exact U].
+  - intros Hp.
+    pose proof (decrypt_saved_wrong c I (mk_signer k (pub_of_priv k')) pass salt nonce p Hs Hn) as D.
+    cbn [s_priv s_pub] in D. cbn [load export]. rewrite D by (intros E; apply Hp; symmetry; exact E).
+    split; exists EDecrypt; reflexivity.
+Qed.
+
+Lemma import_opens_exactly : forall k k' pass salt nonce f,
+  unmarshal_priv k = Some k' -> salt <> [] -> length nonce = 12 ->
+  import c k pass salt nonce = Ok f -> opens_exactly f (eq pass) (noop_signer k').
+Proof.
+  intros k k' pass salt nonce f U Hs Hn. unfold import. rewrite U. intros H. apply ok_inj in H. subst f.
+  apply sealed_file_opens_exactly; assumption.
+Qed.
+
+Lemma save_opens_exactly : forall s pass salt nonce, wf_signer s -> salt <> [] -> length nonce = 12 ->
+  opens_exactly (save c s pass salt nonce) (eq pass) s.
+Proof.
+  intros s pass salt nonce W Hs Hn. pose proof W as [L P].
+  pose proof (sealed_file_opens_exactly (s_priv s) (s_priv s) pass salt nonce (unmarshal_priv_64 _ L) Hs Hn) as H.
+  unfold save. rewrite P.
+  replace (noop_signer (s_priv s)) with s in H; [exact H|].
+  destruct s as [k q]. cbn [s_priv s_pub] in *. subst q. reflexivity.
+Qed.
+
+(* the two ways a file comes into being outside a history: Create, and a legacy salt-less file *)
+Lemma create_opens_exactly : forall seed pass salt nonce, length seed = 32 -> salt <> [] -> length nonce = 12 ->
+  opens_exactly (snd (create c seed pass salt nonce)) (eq pass) (fst (create c seed pass salt nonce)).
+Proof.
+  intros seed pass salt nonce H Hs Hn. cbn [create fst snd]. apply save_opens_exactly; auto.
+  apply (new_signer_wf c I). exact H.
+Qed.
+
+Lemma legacy_opens_exactly : forall s rawkey nonce, wf_signer s -> length nonce = 12 ->
+  opens_exactly (legacy_file c s rawkey nonce) (fun p => fallback_derive p = Ok rawkey) s.
+Proof.
+  intros s rawkey nonce W Hn. split; [exact W|]. intros p. split.
+  - intros F. destruct (legacy_load c I s p rawkey nonce W F Hn) as [A B]. split; [exact A|].
+    exists (s_priv s). split; [exact B|]. destruct W as [L _]. apply unmarshal_priv_64. exact L.
+  - intros G. apply (legacy_wrong_passphrase_guarded c I). exact G.
+Qed.
+
+Lemma history_starts :
+  (forall seed pass salt nonce, length seed = 32 -> salt <> [] -> length nonce = 12 ->
+     opens_exactly (snd (create c seed pass salt nonce)) (eq pass) (fst (create c seed pass salt nonce))) /\
+  (forall s rawkey nonce, wf_signer s -> length nonce = 12 ->
+     opens_exactly (legacy_file c s rawkey nonce) (fun p => fallback_derive p = Ok rawkey) s).
+Proof. split; [exact create_opens_exactly|exact legacy_opens_exactly]. Qed.
+
+Lemma seal_step_ok : forall st op, hop_wf op -> seal_ok st -> seal_ok (seal_step st op).
+Proof.
+  intros [f P s] op W H. unfold seal_ok, seal_step in *. cbn [sl_file sl_pred sl_key] in *.
+  destruct op as [p|p|k p sa n|sg p sa n]; cbn [hstep fst].
+  - exact H.
+  - exact H.
+  - destruct W as [Hs Hn]. unfold import. destruct (unmarshal_priv k) as [k'|] eqn:U.
+    + cbn [fst sl_file sl_pred sl_key]. apply sealed_file_opens_exactly; assumption.
+    + cbn [fst sl_file sl_pred sl_key]. exact H.
+  - destruct W as (Wf & Hs & Hn). destruct f; cbn [fst sl_file sl_pred sl_key]; try exact H.
+    apply save_opens_exactly; assumption.
+Qed.
+
+(* after EVERY step of ANY history (loads, exports, imports, creates; right and wrong passphrases) the file
+   opens with exactly the passphrase it was last sealed with, to the key last sealed in it *)
+Theorem history_keeps_seal : forall ops st, Forall hop_wf ops -> seal_ok st -> Forall seal_ok (seal_trace st ops).
+Proof.
+  induction ops as [|op r IH]; intros st W H; cbn [seal_trace]; [constructor|].
+  inversion W as [|? ? Wop Wr]; subst.
+  pose proof (seal_step_ok st op Wop H) as H'. constructor; [exact H'|]. apply IH; assumption.
+Qed.
+
+(* the ghost state follows the model: its file is the file hrun reports after the same step *)
+Lemma seal_trace_files : forall ops st,
+  map sl_file (seal_trace st ops) = map fst (hrun c (sl_file st) ops).
+Proof.
+  induction ops as [|op r IH]; intros st; cbn [seal_trace hrun map]; [reflexivity|].
+  assert (E : sl_file (seal_step st op) = fst (hstep c (sl_file st) op)).
+  { unfold seal_step. destruct op as [p|p|k p sa n|sg p sa n]; cbn [sl_file]; try reflexivity.
+    - destruct (unmarshal_priv k); reflexivity.
+    - destruct (sl_file st); reflexivity. }
+  rewrite E at 1. f_equal. rewrite IH, E. reflexivity.
+Qed.
+
+(* ---- signing sessions -------------------------------------------------------------------------------- *)
+Theorem sign_session_verifies : forall seed ops, length seed = 32 ->
+  let s := new_signer c seed in
+  session_sigs c s ops = map (signer_sign c s) (session_msgs [] ops) /\
+  Forall2 (fun m sig => verify_under c (signer_public s) m sig = true) (session_msgs [] ops) (session_sigs c s ops).
+Proof.
+  intros seed ops H s. split; [reflexivity|]. unfold session_sigs.
+  induction (session_msgs [] ops) as [|m r IH]; cbn [map]; constructor; [|exact IH].
+  exact (proj1 (proj2 (create_load c I seed [] [0%N] (repeat 0%N 12) H ltac:(discriminate) eq_refl)) m).
+Qed.
+
+Theorem loaded_sign_session_verifies : forall seed pass salt nonce s ops,
+  length seed = 32 -> salt <> [] -> length nonce = 12 ->
+  load c (snd (create c seed pass salt nonce)) pass = Ok s ->
+  Forall2 (fun m sig => verify_under c (signer_public s) m sig = true) (session_msgs [] ops) (session_sigs c s ops).
+Proof.
+  intros seed pass salt nonce s ops H Hs Hn L.
+  destruct (create_load c I seed pass salt nonce H Hs Hn) as (L' & _). cbn zeta in L'. rewrite L' in L.
+  apply ok_inj in L. subst s. cbn [create fst]. apply sign_session_verifies. exact H.
+Qed.
+
+End Histories.
+
 (* the legacy format looks at the first 32 bytes of the passphrase only: two different passphrases open
    exactly the same salt-less files, whatever the cryptography *)
 Definition legacy_p1 : bytes := repeat 7%N 32 ++ [1%N].
